@@ -52,6 +52,8 @@ class ReservablePriorityReqStore(Store):
         self.reserve_get_queue = []  # Queue for managing reserve_get reservations
         self.reservations_get = []   # List of successful get reservations
         self.reserved_events = []     # Maintains events corresponding to reserved items to preserve item order
+        self._item_arrival = []      # arrival number of each entry of self.items (same index)
+        self._next_arrival = 0
         self._last_level_change_time = self.env.now
         self._last_num_items = 0
         self._weighted_sum = 0.0
@@ -68,6 +70,13 @@ class ReservablePriorityReqStore(Store):
         self.time_averaged_num_of_items_in_store = (
             self._weighted_sum / total_time if total_time > 0 else 0.0
         )
+
+    def _sync_item_arrival(self):
+        """Keep the arrival numbers aligned with self.items (items appended to the list directly count as arriving now)."""
+        del self._item_arrival[len(self.items):]
+        while len(self._item_arrival) < len(self.items):
+            self._item_arrival.append(self._next_arrival)
+            self._next_arrival += 1
 
     def reserve_put(self, priority=0):
         """
@@ -245,8 +254,15 @@ class ReservablePriorityReqStore(Store):
         event_in_index = self.reserved_events.index(get_event_to_cancel)
         delta_position = len(self.reserved_events)
         #shifting the item
+        self._sync_item_arrival()
         item_to_shift = self.items.pop(event_in_index)
-        self.items.insert(delta_position-1, item_to_shift)
+        arrival = self._item_arrival.pop(event_in_index)
+        # back among the unreserved items, in arrival order
+        new_index = delta_position-1
+        while new_index < len(self.items) and self._item_arrival[new_index] < arrival:
+            new_index += 1
+        self.items.insert(new_index, item_to_shift)
+        self._item_arrival.insert(new_index, arrival)
         #deleting the event
         self.reserved_events.pop(event_in_index)#if t is removed, then a waiting event can be succeeded, if any
 
@@ -444,7 +460,9 @@ class ReservablePriorityReqStore(Store):
         self.reservations_get.remove(reserved_event)
 
         # Retrieve the assigned item and remove it from storage
+        self._sync_item_arrival()
         assigned_item = self.items.pop(item_index)
+        self._item_arrival.pop(item_index)
         self.reserved_events.pop(item_index)
 
         if assigned_item is None:
@@ -555,6 +573,7 @@ class ReservablePriorityReqStore(Store):
         # Add the item if space is available
         if len(self.items) < self.capacity:
             self.items.append(item)
+            self._sync_item_arrival()
             return True  # Successfully added item
         
 
